@@ -369,6 +369,44 @@ def inconsistent_options(res, tag="inconsistent-options"):
             res.traces += 1
 
 
+def explicit_zero_limits(res):
+    """psi shifted by a constant so that the psinorm = 1.1 surface is psi = 0: `psi_sol: 0.0` is a valid request (the grid must end there, as the
+    file will record), `psi_core: 0.0` is an invalid one (a SOL surface) and must be rejected"""
+    import contextlib
+    import io
+    import warnings
+    from hypnotoad import tokamak
+    import gridlab
+    from props.c14 import example
+
+    r1, z1, p2, p1 = example("lsn")
+    o = dict(gridlab.SMALL)
+    with warnings.catch_warnings(), contextlib.redirect_stdout(io.StringIO()):
+        warnings.simplefilter("ignore")
+        e0 = tokamak.TokamakEquilibrium(r1, z1, p2.copy(), p1.copy(), [], wall=list(gridlab.WALL), settings=dict(o))
+    shift = float(e0.psi_axis + 1.1 * (e0.psi_bdry - e0.psi_axis))
+    res.case(key=("psi_sol=0.0",), nontrivial=True)
+    try:
+        with warnings.catch_warnings(), contextlib.redirect_stdout(io.StringIO()):
+            warnings.simplefilter("ignore")
+            eq = tokamak.TokamakEquilibrium(r1, z1, p2 - shift, p1 - shift, [], wall=list(gridlab.WALL), settings=dict(o, psi_sol=0.0, psinorm_sol=1.2))
+        ends = [float(r.psi_vals[-1][-1]) for n, r in eq.regions.items()]
+        if any(abs(x) > 1e-12 for x in ends):
+            res.violation("explicit-limit-ignored", "psi_sol = 0.0 is requested (and will be recorded in the file) but the radial grids end at psi = %r" % sorted(set(ends)), {"psi_shift": shift})
+        else:
+            res.traces += 1
+    except Exception as e:
+        res.extra.setdefault("refused", []).append(["psi_sol=0.0", str(e)[:140]])
+    res.case(key=("psi_core=0.0 invalid",), nontrivial=True)
+    try:
+        with warnings.catch_warnings(), contextlib.redirect_stdout(io.StringIO()):
+            warnings.simplefilter("ignore")
+            tokamak.TokamakEquilibrium(r1, z1, p2 - shift, p1 - shift, [], wall=list(gridlab.WALL), settings=dict(o, psi_core=0.0))
+        res.violation("invalid-limit-accepted", "psi_core = 0.0 names a surface outside the separatrix (psinorm 1.1) and is accepted", {"psi_shift": shift})
+    except Exception:
+        res.traces += 1
+
+
 def cli_rejection(res):
     import yaml
     from hypnotoad.geqdsk import _geqdsk
@@ -555,6 +593,7 @@ def run(res, tier):
     res.extra["outcomes"] = hist
     model_correspondence(res, grids, tier)
     option_rejection(res)
+    explicit_zero_limits(res)
     cli_rejection(res)
     shipped_examples(res, tier)
     if tier == "thorough":
